@@ -6,4 +6,24 @@ LEVELS = {
         "text": "Every executed MH step is compared with the decision the acceptance rule prescribes for the very draw it consumed; on finite state spaces the draw is injected (incl. u=0 and 1-ulp) and the decision boundary is located by bisection over all representable u, giving the realised acceptance probability and observed detailed balance. Exploration of generated programs/inputs, not a proof.",
         "note": "Trusts that the acceptance draw is the next uniform of the public rng field (read back from a clone), libm's ln being the same function in harness and library, and the harness's own Target/Proposal implementations.",
     },
+    "C05": {
+        "technique": "runtime monitoring: history checker over the calls received by a recording Conditional with unique answers (unambiguous history)",
+        "text": "Every call the library made to the user's conditional during the observed sweeps is checked against the sweep semantics with bitwise state comparison, for generated dimensions, element types, chain counts and thread pools. Exploration, not proof.",
+        "note": "Trusts the recording wrapper (plain Vec push) and that answers are unique per chain.",
+    },
+    "C07": {
+        "technique": "runtime monitoring: byte-image equality of outputs across repeated construction, thread-pool sizes, concurrent samplers and progress mode; Miri/TSan passes in the thorough tier",
+        "text": "Outputs of identically seeded samplers are compared bit for bit under varied schedules (pool sizes, concurrently running samplers hammering burn's global generator, progress mode) and extreme seeds; different seeds must give different output. Covers the schedules produced in the run.",
+        "note": "Depends on the OS scheduler for interleavings; Gibbs only with a state-deterministic conditional.",
+    },
+    "C08": {
+        "technique": "runtime monitoring: invariant check on cloned per-chain generators/proposals (public fields) and on trajectories from a common start",
+        "text": "For generated samplers the per-chain acceptance and proposal streams are extracted from clones and compared pairwise, and trajectories from a common start are compared at the first move. Exploration over chain counts, seeds, seeded/unseeded construction.",
+        "note": "Stream identity judged on the next 4 outputs; NUTS/HMC judged on trajectories only (generators are private).",
+    },
+    "C09": {
+        "technique": "runtime monitoring: self-identifying counting chains + seeded twins/manual stepping + hook trace of HMC/NUTS transitions",
+        "text": "Every cell of every returned array is checked against the transition it must come from, for generated (n_chains, n_collect, n_discard, dim, threads) and sequences of run calls; continuation and manual-stepping equalities are bitwise. Exploration of the grid, not exhaustive in quick.",
+        "note": "Real-sampler part relies on C07 determinism; NUTS row semantics read from the NutsEnd hook events.",
+    },
 }
